@@ -243,6 +243,8 @@ func exec(t []string) string {
 		return runEntry(a, b, t[3] == "1")
 	case t[0] == "col.guard" && len(t) >= 2:
 		return runGuard(t[1:])
+	case t[0] == "col.rounds" && len(t) >= 3:
+		return execRounds(t[1:]) // rounds.go: several rounds on one shared client
 	}
 	return "bad-op"
 }
@@ -575,6 +577,8 @@ func gen(c *lib.Ctx) {
 		}
 		scenario(c, t0, d, genSpecs(r, n, t0, d, r.Intn(3)))
 	}
+	// several rounds on ONE client, with stragglers of earlier rounds still running (rounds.go)
+	genRounds(c, r.Fork("rounds"))
 	// What the caller in core/sync does with the slice (informational, no oracle): the same
 	// slice round after round, FaultTolerantMidpoint over all of it. Round 1: every clock
 	// succeeds; round 2: every clock fails. Counted: whether round 2 reports round 1's midpoint.
